@@ -20,6 +20,8 @@ import json
 import math
 import os
 import random
+import shutil
+import sys
 from concurrent.futures import ThreadPoolExecutor
 from fractions import Fraction
 from pathlib import Path
@@ -888,12 +890,63 @@ def known_edge_rounding(ctx):
         ctx.fail("failing-input", f"a directed edge-rounding input raised {type(e).__name__}: {e}", signature="edge-rounding-raises")
 
 
+def cache_configurations(ctx):
+    """"a tile is downloaded only if it is not already in the cache directory" under the documented ways of naming that directory:
+    TYPHON_DATA_PATH first, else XDG_CACHE_HOME, else below the home directory -- one fresh interpreter per configuration (the
+    module resolves the directory once).  The tile lies in the places the documented precedence designates (with and without the
+    sub directories the code appends, so that only the PRECEDENCE is demanded, not the layout); the directory of a variable that
+    must lose is empty.  A download, an exception or another tile content is a failing input."""
+    import subprocess
+    import tempfile
+    base = tempfile.mkdtemp(prefix="verif_c20_env_")
+    try:
+        tdp, xdg, home = (os.path.join(base, d) for d in ("typhon_data", "xdg_cache", "home"))
+        sub = ["", "topography", os.path.join("typhon", "topography"), "typhon"]
+        home_dirs = [os.path.join(home, ".cache", "typhon", "topography"), os.path.join(home, ".typhon", "topography")]
+        configs = [("TYPHON_DATA_PATH only", {"TYPHON_DATA_PATH": tdp}, [os.path.join(tdp, d) for d in sub]),
+                   ("XDG_CACHE_HOME only", {"XDG_CACHE_HOME": xdg}, [os.path.join(xdg, d) for d in sub]),
+                   ("TYPHON_DATA_PATH and XDG_CACHE_HOME", {"TYPHON_DATA_PATH": tdp, "XDG_CACHE_HOME": xdg},
+                    [os.path.join(tdp, d) for d in sub]),
+                   ("neither variable", {}, home_dirs)]
+        n = 0
+        for k, (label, env_add, warm) in enumerate(configs):
+            env = {k_: v_ for k_, v_ in os.environ.items() if k_ not in ("TYPHON_DATA_PATH", "XDG_CACHE_HOME")}
+            env.update(env_add)
+            env.update({"HOME": home, "PYTHONPATH": str(core.REPO)})
+            for d in (tdp, xdg, home):
+                shutil.rmtree(d, ignore_errors=True)
+                os.makedirs(d)
+            tile = ["w020n90", "e020n40", "w100n40", "e060s10"][k]
+            pr = subprocess.run([core.PY, "-W", "ignore", str(core.VERIF / "tools" / "harness" / "c20_env.py"),
+                                 json.dumps({"warm_dirs": warm, "tile": tile})], env=env, capture_output=True, text=True, timeout=300, cwd=base)
+            try:
+                r = json.loads(pr.stdout.strip().splitlines()[-1])
+            except Exception:  # noqa
+                ctx.fail("correspondence", f"cache configuration run [{label}] gave no result: {pr.stderr[-400:]}", signature="cache-config-run")
+                continue
+            n += 1
+            ctx.cov["evaluations"] += 1
+            case = {"configuration": label, "environment": {k_: v_.replace(base, "<tmp>") for k_, v_ in env_add.items()},
+                    "tile_in": [w.replace(base, "<tmp>") for w in warm], "observed": {k_: (v_.replace(base, "<tmp>") if isinstance(v_, str) else v_)
+                                                                                     for k_, v_ in r.items()}}
+            if r["downloads"] or r["error"] or not r.get("probe_ok"):
+                ctx.fail("failing-input", f"cache directory configured by [{label}], tile {tile} present in the designated directory: "
+                         f"get_tile {'downloaded ' + str(r['downloads']) if r['downloads'] else ''}"
+                         f"{' raised ' + r['error'] if r['error'] else ''}{'' if r.get('probe_ok') or r['error'] else ' returned other data'} "
+                         f"(it looked in {case['observed']['data_path']})", case=case, signature="cache-directory-precedence")
+        ctx.cov.setdefault("input_distribution", {})
+        return n
+    finally:
+        shutil.rmtree(base, ignore_errors=True)
+
+
 def run(ctx):
     translate_table(ctx)
     ctx.prove("Props/C20.v", extra_targets=["Model/C20_float.v", "Model/C20_margin.v"])
     cases = gen_cases(ctx)
     nt = check_cases(ctx, cases)
     known_edge_rounding(ctx)
+    cache_configurations(ctx)
     return finish(ctx, cases, nt)
 
 
